@@ -24,7 +24,7 @@ ASSUMPTIONS = [
     "the harness's own parser of the binary format defines 'persisted quantity' (pointer members, padding, walltime, callbacks-used flag excluded)",
     "field mutation writes through offsets published in the exported reb_binary_field_descriptor_list",
 ]
-CLASSES = ["copy/variation", "copy/megno", "copy/merged", "copy/tree", "mutate/scalar", "mutate/array_elem",
+CLASSES = ["copy/variation", "copy/megno", "copy/merged", "copy/tree", "copy/tree_merged_after_copy", "mutate/scalar", "mutate/array_elem",
            "mutate/array_len", "mutate/array_vanish", "mutate/walltime"]
 
 DT_DOUBLE, DT_INT, DT_UINT, DT_UINT32, DT_INT64, DT_UINT64, DT_VEC3D, DT_PARTICLE, DT_POINTER, DT_ALIGNED, \
@@ -42,6 +42,10 @@ def state_case(draw):
     if c["tree"]:
         c["extra"] = "none"
         c["cfg"] = {"integrator": "leapfrog", "set": [], "family": "leapfrog", "fixed_step": True}
+        # (gravity, collision search): every combination for which the simulation owns a tree, and two that do not
+        c["tree_mode"] = draw(st.sampled_from([["tree", "none"], ["tree", "tree"], ["basic", "tree"], ["basic", "linetree"],
+                                               ["none", "linetree"], ["tree", "line"], ["compensated", "tree"],
+                                               ["tree", "linetree"], ["basic", "line"], ["basic", "direct"]]))
     c["sched"] = draw(st.lists(st.sampled_from(["c", "s", "c", "s", "ce", "se", "cs", "ss"]), min_size=2, max_size=10))
     c["route"] = draw(st.sampled_from(["copy", "pickle", "bytes", "file"]))
     c["mut_seed"] = draw(st.integers(0, 2 ** 31))
@@ -74,8 +78,11 @@ def build_state(case, ctx):
                 p["x"] += 0.0123 * ext
                 p["y"] += 0.0077 * ext
                 p["z"] += 0.0031 * ext
+            grav, coll = case.get("tree_mode", ["tree", "none"])
             sim = rb.new_sim({"G": case["system"]["G"], "box": {"size": ext, "rx": 2, "ry": 2, "rz": 1},
-                              "gravity": "tree", "particles": parts})
+                              "gravity": grav, "collision": coll, "particles": parts})
+            if coll != "none":
+                sim.collision_resolve = "merge"
             sim.integrator = "leapfrog"
             sim.dt = case["dt_frac"] * case["system"]["P_min"]
         else:
@@ -86,6 +93,13 @@ def build_state(case, ctx):
         ctx.skip("setup raised")
         return None
     return sim
+
+
+def reattach(cp, case):
+    """Callbacks are not copied; the user re-attaches the same ones by name."""
+    c05.reattach(cp, case)
+    if case.get("tree") and case.get("tree_mode", ["tree", "none"])[1] != "none":
+        cp.collision_resolve = "merge"
 
 
 def settle_keep(sim):
@@ -152,7 +166,7 @@ def run_copy(case, ctx):
         sim.save_to_file(path, delete_file=True)
         cp = rebound.Simulation(path)
         os.unlink(path)
-    c05.reattach(cp, case)      # callbacks are not copied; the user re-attaches them (the "callbacks were set" flag is persisted)
+    reattach(cp, case)      # callbacks are not copied; the user re-attaches them (the "callbacks were set" flag is persisted)
     e = equal_both(sim, cp)
     if not all(e):
         raise Violation("simulation does not compare equal to its own %s (==: %s, diff: %s, reversed ==: %s)"
@@ -161,9 +175,22 @@ def run_copy(case, ctx):
     if rb.smap(cp) != m_src:
         raise Violation("%s differs from source in persisted content" % route,
                         diff=sa_format.map_diff(m_src, rb.smap(cp), names)[:6])
-    c05.reattach(cp, case)
-    if case.get("tree"):
-        pass
+    reattach(cp, case)
+    if case.get("tree") and case.get("tree_mode", ["tree", "none"])[1] != "none" and sim.N >= 2:
+        # a collision *after* the copy was taken: the closest pair gets overlapping radii on both objects, the
+        # search (tree based or not) of either object has to find it and both have to merge the same pair
+        best = None
+        ps = sim.particles
+        for i in range(sim.N):
+            for j in range(i + 1, sim.N):
+                d = ((ps[i].x - ps[j].x) ** 2 + (ps[i].y - ps[j].y) ** 2 + (ps[i].z - ps[j].z) ** 2) ** 0.5
+                if best is None or d < best[0]:
+                    best = (d, i, j)
+        for target in (sim, cp):
+            target.particles[best[1]].r = 0.6 * best[0]
+            target.particles[best[2]].r = 0.6 * best[0]
+        ctx.cls("tree_collision_armed")
+    N_at_copy = sim.N
     # the same structural edits on both, then both must keep evolving identically
     if structural_ok and case.get("both_ops"):
         import math
@@ -246,7 +273,11 @@ def run_copy(case, ctx):
             a = (sorted(a[0]),) + a[1:]
             b = (sorted(b[0]),) + b[1:]
         if sim.N != cp.N or a != b:
-            raise Violation("copy (%s) and source diverge after %d steps each" % (route, n), route=route)
+            raise Violation("copy (%s) and source diverge after %d steps each (N %d / %d%s)"
+                            % (route, n, sim.N, cp.N, (", modules %r" % (case["tree_mode"],)) if case.get("tree") else ""),
+                            route=route)
+        if case.get("tree") and sim.N < N_at_copy:
+            ctx.cls("tree_merged_after_copy")
         # identical histories -> identical persisted content -> compare must still say "equal"
         # (a difference here can only come from something that is not a quantity of the simulation, e.g. an address)
         ma, mb = rb.smap(sim, keep_funcptr=True), rb.smap(cp, keep_funcptr=True)
@@ -323,7 +354,7 @@ def run_mutate(case, ctx):
             kinds = ["blob"]
         for kind in kinds:
             cp = sim.copy()
-            c05.reattach(cp, case)
+            reattach(cp, case)
             base = ctypes.addressof(cp)
             restore_len = None
             if kind == "scalar":
@@ -413,7 +444,7 @@ def run_api(case, ctx):
     if sim is None:
         return
     cp = sim.copy()
-    c05.reattach(cp, case)
+    reattach(cp, case)
     try:
         for kind, a in case["edits"]:
             if kind in ("x", "vz", "m", "r", "add", "remove", "N_active", "dt"):
